@@ -173,7 +173,7 @@ def concerns(pid, sc, res, code, inst, plain_mismatch, prefix_code=None):
 
 
 def correspondence(pid, tier, seed):
-    n = 250 if tier == 'quick' else 2500
+    n = lib.size(250, 2500, tier)
     scs = generate(pid, tier, seed, n)
     res = execute(scs)
     grid_broken = []
@@ -183,7 +183,7 @@ def correspondence(pid, tier, seed):
         rel = fam_rel.correspondence('C20', tier, seed)
         grid_broken = [b for b in rel['broken']]
     if pid in ('C11', 'C12'):
-        grid_broken, grid_n = grid_correspondence(seed, 9 if tier == 'quick' else 60)
+        grid_broken, grid_n = grid_correspondence(seed, lib.size(9, 60, tier))
     usable = [(s, r) for s, r in zip(scs, res) if not (r['err'] or '').startswith('Other:Timeout') and not r.get('build_failed')]
     timeouts = len(scs) - len(usable)
     scs2 = [s for s, _ in usable]
